@@ -62,6 +62,10 @@ Definition g_instr (x : sx) : instr :=
   else if (t =? "val_expression")%string then I_val_expression (g_leb a1) (g_leb a2) (gB a3)
   else if (t =? "GNU_window_save")%string then I_GNU_window_save
   else if (t =? "GNU_args_size")%string then I_GNU_args_size (g_leb a1)
+  else if (t =? "MIPS_advance_loc8")%string then I_MIPS_advance_loc8 (gI a1)
+  else if (t =? "AARCH64_negate_ra_state_with_pc")%string then I_AARCH64_negate_ra_state_with_pc
+  else if (t =? "GNU_negative_offset_extended")%string then
+    I_GNU_negative_offset_extended (g_leb a1) (g_leb a2)
   else I_nop.
 Definition g_instrs (x : sx) : list instr := map g_instr (gL x).
 
@@ -224,7 +228,7 @@ Definition op_instrs (l : list sx) : sx :=
   let is := g_instrs (nthx 3 l) in
   let bs := encode_instrs le asize is in
   let T := mkstructs le 32 (Z.of_nat asize) in
-  SL [SB bs; sx_bool (wf_instrs asize is);
+  SL [SB bs; sx_bool (forallb (wf_instr_ext asize) is);
       sx_res (fun p => SL [SL (map sx_instr (fst p)); SI (snd p)])
              (parse_instructions (Datatypes.S (length bs)) T bs 0 (zlen bs));
       sx_ok (SL [SL (map (fun i => sx_instr (to_raw i)) is); SI (zlen bs)])].
